@@ -193,9 +193,81 @@ def install(case):
         shutil.rmtree(tmp, ignore_errors=True)
 
 
+class _Listing(asset.Registry):
+    """In-memory registry stub recording under which key a committed generation is stored."""
+
+    def __init__(self, keys):
+        super().__init__(staging='/var/tmp/verif_c18_staging')
+        self.keys, self.closed = list(keys), []
+
+    def projects(self):
+        return ['prj']
+
+    def releases(self, project):
+        return ['1']
+
+    def generations(self, project, release):
+        return list(self.keys)
+
+    def open(self, project, release, generation):
+        return asset.Tag()
+
+    def close(self, project, release, generation, tag):
+        self.closed.append(int(generation))
+        self.keys.append(int(generation))
+
+    def push(self, package):
+        raise NotImplementedError()
+
+    def pull(self, project, release):
+        raise NotImplementedError()
+
+    def read(self, project, release, generation, sid):
+        raise NotImplementedError()
+
+    def write(self, project, release, sid, state):
+        raise NotImplementedError()
+
+
+def nextgen(case):
+    """Commit `commits` generations into a release whose existing generation keys are `keys` (possibly with holes)."""
+    registry = _Listing(case['keys'])
+    for _ in range(case['commits']):
+        release = asset.Directory(registry).get('prj').get('1')
+        release.put(asset.Tag(training=asset.Tag.Training(EPOCH, 1)))
+    return {'closed': registry.closed}
+
+
+def repackage(case):
+    """A directory-based package (it carries its own manifest) is re-created as an archive under ANOTHER manifest."""
+    import sys
+
+    tmp = pathlib.Path(tempfile.mkdtemp(prefix='c18r_', dir='/var/tmp'))
+    before = set(sys.modules)
+    try:
+        root = tmp / 'src'
+        pkgdir = root / case['package']
+        pkgdir.mkdir(parents=True)
+        (pkgdir / '__init__.py').write_text('')
+        (pkgdir / 'source.py').write_text(SOURCE_TMPL.format(marker=case['marker']))
+        (pkgdir / 'pipeline.py').write_text(PIPELINE_TMPL.format(marker=case['marker']))
+        project.Manifest(case['name'], case['old_version'], case['package']).write(root)     # the tree's own manifest
+        new = project.Manifest(case['name'], case['new_version'], case['package'])
+        created = project.Package.create(root, new, tmp / 'pkg.4ml')
+        reread = project.Package(tmp / 'pkg.4ml')
+        artifact = reread.install(tmp / 'installed')
+        return {'created': str(created.manifest.version), 'reread': str(reread.manifest.version),
+                'source': repr(artifact.components.source.extract.train)}
+    finally:
+        for name in set(sys.modules) - before:
+            if name.split('.')[0] == case['package']:
+                sys.modules.pop(name, None)
+        shutil.rmtree(tmp, ignore_errors=True)
+
+
 def observe(case):
     try:
         return {'tag': tag, 'genkey': genkey, 'versions': versions, 'genlisting': genlisting, 'rellisting': rellisting,
-                'manifest': manifest, 'install': install}[case['t']](case)
+                'manifest': manifest, 'install': install, 'nextgen': nextgen, 'repackage': repackage}[case['t']](case)
     except Exception as err:  # pylint: disable=broad-except
         return {'error': f'{type(err).__name__}: {err}'}
